@@ -16,10 +16,11 @@ from mmv import util
 
 PROP = 'C10'
 LEVEL = 'exploration'
+OPS_NOTE = 'plus sibling_search: a search on a second object sharing the data object (not judged itself)'
 OPS = ['geos_over_budget', 'geos_too_large', 'geos_must_include', 'geos_within_constraints', 'geo_assignments',
        'treatment_group_size_range', 'count_max_designs', 'list_treatment_groups', 'list_control_groups',
        'design_within_constraints', 'exhaustive_search', 'greedy_search', 'search_results']
-RULE = ('Histories of 2-12 operations over {%s} on one object (2-5 geos; parameters with unspecified size ranges in '
+RULE = ('Histories of 2-12 operations over {%s} (and searches of a sibling object that shares the data object) on one object (2-5 geos; parameters with unspecified size ranges in '
         'most cases), biased towards search -> results -> results, greedy -> exhaustive, search -> queries. Each answer '
         'is normalised (sets of IDs, sorted index lists, design lists with groups / score / correlation / impact) and '
         'compared with the same call on a freshly built object; parameters (asdict) and the input frame are compared '
@@ -29,9 +30,9 @@ ASSUMPTIONS = ['fresh-object replay = the code itself without history (sequentia
                'search_results() before any search is not generated (no documented answer)']
 EXHAUSTIVE = {'quick': False, 'thorough': False}
 HASH_SEEDS = {'quick': [0], 'thorough': [0, 1, 2]}
-MINIMA = {'quick': {'ops_compared': 1500, 'set:bigrams': 100, 'distinct_nontrivial': 150, 'repeat_results': 100,
+MINIMA = {'quick': {'sibling_searches': 80, 'ops_compared': 1500, 'set:bigrams': 100, 'distinct_nontrivial': 150, 'repeat_results': 100,
                     'param_snapshots': 1500},
-          'thorough': {'ops_compared': 20000, 'set:bigrams': 150, 'distinct_nontrivial': 2000, 'repeat_results': 1500,
+          'thorough': {'sibling_searches': 1000, 'ops_compared': 20000, 'set:bigrams': 150, 'distinct_nontrivial': 2000, 'repeat_results': 1500,
                        'param_snapshots': 20000}}
 N = {'quick': 320, 'thorough': 4000}
 CASE_TIMEOUT = {'quick': 300, 'thorough': 900}
@@ -117,6 +118,8 @@ def gen_history(r):
       op = 'search_results'
     elif searched and u < 0.5:
       op = r.choice(['exhaustive_search', 'greedy_search'])
+    elif u < 0.6:
+      op = 'sibling_search'
     else:
       op = r.choice(OPS[:10])
     if op == 'search_results' and not searched:
@@ -149,7 +152,27 @@ def run_case(spec):
   log = []
   searched_then_more = False
   seen_search = False
+  sibling = None
   for op, arg in ops:
+    if op == 'sibling_search':
+      # a second matched-markets object on the SAME data object (different admitted geos) runs a search in
+      # between; it is not judged itself, but every later answer of the first object still must be the fresh one
+      if sibling is None:
+        smod, pmod = sl.bootstrap.mm('tbrmatchedmarkets'), sl.bootstrap.mm('tbrmmdesignparameters')
+        sib = util.call(lambda: smod.TBRMatchedMarkets(data, pmod.TBRMMDesignParameters(**sl.alt_params(case, r))))
+        sibling = sib.value if sib.ok else False
+      if sibling:
+        util.call(getattr(sibling, ['greedy_search', 'exhaustive_search'][arg % 2]))
+        counters['sibling_searches'] += 1
+        # retrieval of A's *stored* results after another object re-indexed the shared data object is outside
+        # the property's quantifier (call sequences of ONE object): stored designs hold positions that are mapped
+        # through the data object's current geo index. Not judged until A searches again (DESIGN §11.2).
+        seen_search = False
+        last_search_answer = None
+        bigrams.add(prev + '>' + op)
+        prev = op
+        log.append(op)
+      continue
     bigrams.add(prev + '>' + op)
     prev = op
     if seen_search:
